@@ -384,8 +384,14 @@ func (its *jsonPrimitive) createJSONTypeFromReflectValue(parent jsonType, rv ref
 		}
 		return its.createJSONObject(parent, toMap, ts)
 	case reflect.Map:
+		if rv.IsNil() { // a nil map is encoded as JSON null: the other replicas store nothing for it
+			return nil
+		}
 		return its.createJSONObject(parent, rv.Interface(), ts)
 	case reflect.Slice, reflect.Array:
+		if kind == reflect.Slice && rv.IsNil() { // a nil slice is encoded as JSON null, too
+			return nil
+		}
 		return its.createJSONArray(parent, rv.Interface(), ts)
 	case reflect.Ptr, reflect.Interface:
 		if rv.IsNil() {
